@@ -885,6 +885,12 @@ package litefs
 //@   requires  dbWF(db)
 //@   ghost older bool = false
 //@   on call time.Time.Before ; then older = ret0
-//@   on call OS.Remove op "ENFORCERETENTION" assert older && i != len(ents) - 1 && (db.store.BackupClient != nil ==> maxTXID < hwm)
+// (the acknowledged high-water mark and the file's LAST transaction ID are taken from the calls that produce them, not from
+// local variable names: a file that merely STARTS below the mark may end above it)
+//@   ghost h ltx.TXID = 0
+//@   ghost fmax ltx.TXID = 0
+//@   on call DB.HWM ; then h = ret0
+//@   on call ltx.ParseFilename ; then fmax = ret1
+//@   on call OS.Remove op "ENFORCERETENTION" assert older && i != len(ents) - 1 && (db.store.BackupClient != nil ==> fmax < h)
 //@   loop 1 invariant -1 <= rangeindex && rangeindex < len(ents)
 //@   nopanic
